@@ -12,6 +12,7 @@ directive is that directive's payload):
        followed by sub-directives, each with a payload:
   @@ spec                      -- requires/ensures placed between signature and body
   @@ entry                     -- proof text at function entry (S1)
+  @@ ghost_entry               -- `let ghost x0 = x;` snapshots at function entry (S1'; ghost code, erased)
   @@ loop <k>                  -- invariant/ensures/decreases after the k-th loop header
   @@ loop_body <k>             -- proof text at entry of the k-th loop body (S2)
   @@ before_tail               -- proof text immediately before the tail expression (S3)
@@ -76,7 +77,7 @@ class Unit:
                     if d == 'assumed':
                         cur = {'kind': 'spec', 'arg': ''}
                         cur_fn['subs'].append(cur)
-                elif d in ('spec', 'entry', 'loop', 'loop_body', 'before_tail', 'before_return',
+                elif d in ('spec', 'entry', 'ghost_entry', 'loop', 'loop_body', 'before_tail', 'before_return',
                            'rewrite_header', 'rewrite_body'):
                     if cur_fn is None:
                         raise ExtractError("%s: directive %s outside fn" % (self.path, d))
@@ -165,6 +166,12 @@ def gen_fn(src, item, canary=False):
         ins.append((bo + 1, '\n' + ind + 'proof {\n' + s['payload'] + ind + '}', 'post'))
     for s in subs.get('entry', []):
         ins.append((0, '\n        proof {\n' + s['payload'] + '        }', 'post'))
+    for s in subs.get('ghost_entry', []):
+        # S1': ghost snapshots of parameters at function entry (`let ghost x0 = x;` lines only)
+        for l in s['payload'].splitlines():
+            if l.strip() and not re.match(r'\s*let ghost \w+(: [\w<>]+)? = [^;]+;\s*$', l):
+                raise ExtractError('ghost_entry accepts only `let ghost <name> = <expr>;` lines, got %r' % l)
+        ins.append((0, '\n' + s['payload'].rstrip('\n'), 'post'))
     tail_txt = ''.join(s['payload'] for s in subs.get('before_tail', []))
     if canary:
         tail_txt += '            assert(false); // VERIF-CANARY\n'
